@@ -97,3 +97,6 @@ reg(Spec(
     modelled=["ingesters/namedpipe/namedpipeingester.go (Ingest loop)", "ingesters/syslog/syslogingester.go (ParseSyslogMessage)"],
     extra_targets=["Model/FramingCheck.vo", "Model/SyslogCheck.vo"],
 ))
+
+for _p in ("C05", "C07"):
+    sshd(_p)
